@@ -20,7 +20,7 @@ def run_one(sid):
                 return sid, meta, {p: ("patch-failed", "") for p in props}
         res = {}
         for p in props:
-            env = dict(os.environ, VERIF_REPO=tmp)
+            env = dict(os.environ, VERIF_REPO=tmp, VERIF_EVIDENCE_DIR=os.path.join(tmp, ".evidence"))
             o = subprocess.run(["/venv/bin/python", "run_check.py", p, "--tier", "quick", "--nproc", "6"], cwd=V, env=env,
                                capture_output=True, text=True, timeout=3000)
             first = [l.strip() for l in o.stdout.splitlines() if l.strip().startswith("violation ")]
